@@ -26,8 +26,8 @@ HOOKED = ("U", "I", "Ex", "Dep", "Lit", "tuple", "tupvar")  # constructors whose
 def atom_index(t, n):
     if t[0] == "K":
         return t[1]
-    if t[0] == "obj":
-        return n
+    if t[0] in ("obj", "any"):
+        return n            # typing.Any counts as object, wherever it stands
     return None
 
 
@@ -222,7 +222,7 @@ def universe(n, depth):
         t.append(("U", K[0], K[1], K[2]))
     t += [("I", x, y) for x, y in pairs]
     t += [("Ex", K[0]), ("Ex", K[1]), ("SS", K[0]), ("SS", K[1]), ("HM", "hm")]
-    t += [("list", K[0]), ("list", K[1]), ("list", ("obj",)), ("raw", "list")]
+    t += [("list", K[0]), ("list", K[1]), ("list", ("obj",)), ("raw", "list"), ("list", ("any",)), ("dict", ("any",), K[0]), ("any",)]
     t += [("dict", K[0], K[1]), ("dict", K[1], K[0]), ("dict", K[0], K[0]), ("raw", "dict")]
     t += [("raw", "typing.List"), ("raw", "typing.Dict")]
     t += [("type", K[0]), ("type", K[1]), ("type", ("obj",))]
